@@ -393,6 +393,8 @@ struct Checker {
 
     void add_needles_seed(const AbsSeed& s) {
         needles.push_back({bytes(s.secret, s.secret + 19), "secret bytes"});
+        // the same bytes in reverse order: what a big-endian load into wider integers leaves behind on this machine
+        needles.push_back({bytes(std::reverse_iterator<const u8*>(s.secret + 19), std::reverse_iterator<const u8*>(s.secret)), "secret bytes (byte-reversed, as left by big-endian loads into wider integers)"});
         unsigned c[16]; model::pack(s, c);
         add_needles_idx(c);
     }
@@ -946,7 +948,7 @@ static RunResult run_preempt(const Plan& p, const RunOpts& o) {
         return r;
     }
     clear_slots_and_free(r);
-    if (p.prop == "C15")
+    if (p.prop == "C15" || p.prop == "C20")      // (oracle S leaves allocator and wipe events out of the transcripts: a release that was dropped shows here)
         for (auto& b : E.blocks) if (b.live) { r.v.found = true; r.v.prop = p.prop; r.v.oracle = "model"; r.v.cls = "ledger"; r.v.op = (int)p.ops.size(); r.v.msg = strf("blk%d (taken by task %d) is still allocated after every seed was freed", b.id, b.task); r.log_hash = log.h; return r; }
     // ---- serial reference: the same scripts, each alone, same binary, same library state
     std::vector<TaskScript> solo; build(solo);
